@@ -8,7 +8,9 @@ import (
 	"fmt"
 	"os"
 	"regexp"
+	"runtime/pprof"
 	"strings"
+	"sync/atomic"
 	"time"
 
 	"github.com/alecthomas/participle/v2/lexer"
@@ -175,6 +177,30 @@ func workerMain(args []string) {
 	rl := newRaceLog()
 	start := time.Now()
 	var n int64
+	// real-time watchdog over single runs: a run that takes minutes is machinery trouble (time spent
+	// where the logical step cap cannot see it); say which run it is instead of hanging silently
+	var curIdx, curSince atomic.Int64
+	curIdx.Store(-1)
+	go func() {
+		warned := int64(-1)
+		for {
+			time.Sleep(5 * time.Second)
+			idx, since := curIdx.Load(), curSince.Load()
+			if idx < 0 {
+				continue
+			}
+			d := time.Since(time.Unix(0, since))
+			if d > 2*time.Minute && warned != idx {
+				warned = idx
+				fmt.Fprintf(os.Stderr, "verifsim: run %d of property %s (sub-batch %q, tier %s) has been running for %s of real time\n", idx, *prop, *sub, *tier, d.Round(time.Second))
+			}
+			if d > 12*time.Minute {
+				fmt.Fprintf(os.Stderr, "verifsim: giving up on run %d after %s; goroutines:\n", idx, d.Round(time.Second))
+				pprof.Lookup("goroutine").WriteTo(os.Stderr, 1)
+				os.Exit(5)
+			}
+		}
+	}()
 	for idx := *from; n < *count; idx += *stride {
 		if *seconds > 0 && n%8 == 0 && time.Since(start).Seconds() > *seconds {
 			break
@@ -187,7 +213,10 @@ func workerMain(args []string) {
 		// sample some early runs and a few later ones
 		want := len(agg.Samples) < *samples && (n < int64(*samples)/2 || n%97 == 0)
 		t0 := time.Now()
+		curSince.Store(t0.UnixNano())
+		curIdx.Store(idx)
 		v := oneRun(p, agg, rs, idx, nil, false, want, rl)
+		curIdx.Store(-1)
 		if d := time.Since(t0).Seconds(); d > agg.SlowestRunS {
 			agg.SlowestRunS, agg.SlowestRun = d, idx
 		}
